@@ -115,7 +115,7 @@ def check(ctx, replay=None):
 
     def violate(key, obj, found=True):
         nonlocal viol
-        if viol < 3 or key.startswith("option-slice"):
+        if len(ctx.violations) < 3 or key.startswith("option-slice"):
             viol += 1
             ctx.violation(key, obj, found)
 
@@ -244,7 +244,7 @@ def check(ctx, replay=None):
     import c04_jsgc
     stats.update(c04_jsgc.run(ctx, accepted_bridges[: (4 if ctx.quick() else 40)], violate))
     fails = run_shards(PROP, HEADER, goals) if goals else []
-    if fails and viol == 0:
+    if fails and not ctx.violations:
         ctx.violation("corr:borrow-model", {"broken": "correspondence goal " + goals[fails[0]][:900] + " : Lifetimes/Model.v no longer reproduces the "
                       "implementation's validation / borrow_map on this input (theorems: C04_borrow_edges_exact, C04_all_longer_is_closure)"}, False)
     return batch_evidence(
